@@ -10,6 +10,8 @@ CONSTANTS
   Roles = {"server", "client"}
   Modes = {"receptor", "dns"}
   StreamSrcs <- StreamSrcsQuick
+  MaxTick = 1
+  KF_TimeFrozenAtCreation = FALSE
   KF_DigestCachedAcrossCalls = FALSE
   KF_ColonSplit = TRUE
   DumpFile = ""
